@@ -323,6 +323,13 @@ func (c *c03Checker) AfterRequest(x *Exec, idx int, h *HistItem, res *RunResult)
 			if !haveFirst {
 				firstNum, haveFirst = m.Num, true
 			}
+			if m.Num < uint64(h.Req.Start) {
+				// After a reorg whose junction lies below the start block the engine sends the new branch from the
+				// junction on, blocks below the requested start included (once open, the gate stays open). That is
+				// the contract of the undo signal - "last valid block = junction", then everything above it - and
+				// a client that resumed by cursor depends on it; it is counted, not flagged.
+				x.Probe("data_below_start_after_deep_reorg")
+			}
 			if prev, ok := heights[m.Num]; ok && prev != m.ID {
 				return viol(prop, "two_blocks_same_height", "client received block %s at height %d while still holding %s (no undo in between)", m.ID, m.Num, prev)
 			}
